@@ -438,6 +438,31 @@ func c12Stats(cases []string) map[string]int {
 	return st
 }
 
+// c12Corpus: the witnesses of the repaired defects F16/F17 (also in corpus/C12/fixed.case) and a
+// few hand-picked boundary inputs; always run first.
+func c12Corpus() []string {
+	d := func(ic int, pat string, lines ...string) string {
+		return fmt.Sprintf("dissect %d %s %s 1", ic, HexS(pat), HexListS(lines))
+	}
+	return []string{
+		// F16: ignore-case with a non-ASCII literal
+		d(0, "héllo=%{v}", "héllo=1", "HÉLLO=2", "hÉllo=3"),
+		d(1, "héllo=%{v}", "héllo=1", "HÉLLO=2", "hÉllo=3", "HéLLO=4"),
+		d(1, "É=%{v}é", "É=1é", "é=1é", "É=1É"),
+		// F17: '%' inside a literal
+		d(0, "%{a} 100% done %{b}", "x 100% done y", "x 100y"),
+		d(0, "%{a} 100%", "x 100% done y", "x 100y"),
+		d(0, "%%{a}%%%{b}%", "%1%%2%", "1%2"),
+		fmt.Sprintf("specp 0 - %s %s %s 1", HexListS([]string{"a", "b"}), HexListS([]string{" 100% done ", ""}), HexListS([]string{"x 100% done y", "x 100y"})),
+		// boundaries: empty pattern, no tokens, only a token, delimiter equal to the prefix
+		d(0, "", "", "abc"),
+		d(1, "TeSt1", "test1", "ATest123", "asdf"),
+		d(0, "%{}", "", "abc"),
+		d(0, "ab%{x}ab%{y}ab", "ababab", "abab", "abxabyab", "aabbab"),
+		d(0, "%{a}%{b}", "x"), d(0, "%{a", "x"), d(0, "%{a} %{a}", "x"), d(0, "%{a} %{?a} %{}", "1 2 3"),
+	}
+}
+
 func init() {
-	Register("C12", &Prop{Gen: c12Gen, Run: c12Run, Stats: c12Stats})
+	Register("C12", &Prop{Gen: c12Gen, Run: c12Run, Stats: c12Stats, Corpus: c12Corpus()})
 }
